@@ -180,4 +180,31 @@ func API.decodeSlice$2
   requires api != nil && *api != nil
   modifies everything
   ghost before call API.decode: assert arg4.lengthPrefixType == nil && arg4.arrayRules == nil && arg4.lexicalOrdering == nil && arg4.fieldKey == nil && arg4.objectType == nil
+
+-- JSON numbers (float64) for the integer kinds that travel as JSON numbers: every value of an 8 / 16 / 32-bit kind is
+-- accepted and converted to that kind - the parser fails only for a kind it does not serve (what JSONEncode writes for a
+-- uint8 / uint16 / uint32 / int8 / int16 / int32 always decodes)
+func float64NumParser$1
+  requires ty != nil && signed != nil && v != nil
+  modifies nothing
+  ensures *signed && *ty == reflect.Int8 ==> r1 == nil && typeof(r0) == typeid(int8)
+  ensures *signed && *ty == reflect.Int16 ==> r1 == nil && typeof(r0) == typeid(int16)
+  ensures *signed && *ty == reflect.Int32 ==> r1 == nil && typeof(r0) == typeid(int32)
+  ensures !*signed && *ty == reflect.Uint8 ==> r1 == nil && typeof(r0) == typeid(uint8)
+  ensures !*signed && *ty == reflect.Uint16 ==> r1 == nil && typeof(r0) == typeid(uint16)
+  ensures !*signed && *ty == reflect.Uint32 ==> r1 == nil && typeof(r0) == typeid(uint32)
+  ensures (*signed && *ty != reflect.Int8 && *ty != reflect.Int16 && *ty != reflect.Int32) || (!*signed && *ty != reflect.Uint8 && *ty != reflect.Uint16 && *ty != reflect.Uint32) ==> r1 != nil
+
+-- strings of the binary form carry their length bounds only under validation: without validation Decode accepts whatever
+-- Encode without validation produced (bounds 0 = none)
+func API.decodeBasedOnType
+  opt only-ghost-asserts
+  opt assume-type-asserts
+  requires api != nil && opts != nil && valueType != nil
+  modifies everything
+  ghost local bounded Bool        -- the length bounds of the settings have been consulted (ghost)
+  ghost at entry: bounded = false
+  ghost before call TypeSettings.MinMaxLen: assert opts.validation
+  ghost after call TypeSettings.MinMaxLen: bounded = true
+  ghost before call Deserializer.ReadString: assert !bounded ==> arg4 == 0 && arg5 == 0
 @*/
